@@ -4,7 +4,9 @@ go 1.16
 
 require (
 	github.com/alicebob/miniredis v2.5.0+incompatible
+	github.com/anacrolix/torrent v1.40.0
 	github.com/chihaya/chihaya v0.0.0
+	github.com/prometheus/client_model v0.2.0
 )
 
 replace github.com/chihaya/chihaya => /repo
